@@ -1,5 +1,6 @@
 import NunavutVerif.Model.Strop
 import NunavutVerif.Lemmas.Regex
+import NunavutVerif.Gen.StropCfg
 /-!
 Helper lemmas about the stropping model of `Model/Strop.lean` (C09).
 -/
@@ -30,8 +31,8 @@ theorem recheck_ok_false {bad : Bool} {h : Handler} {e : Err} {s r : Str} {f : B
   · cases d
 
 /-- The three re-verification steps of `stropTrace`, made explicit. -/
-theorem stropTrace_ok {cfg : Cfg} {tok ty r : Str} {g : Bool}
-    (h : stropTrace cfg tok ty = .ok (r, g)) :
+theorem stropTraceBeforeFix_ok {cfg : Cfg} {tok ty r : Str} {g : Bool}
+    (h : stropTraceBeforeFix cfg tok ty = .ok (r, g)) :
     lowerAscii ty ≠ tyAll ∧ ∃ s2 f2 s3 f3,
       recheck (patDry cfg tyAll (realPipeline cfg (lowerAscii ty) tok) ||
                patDry cfg (lowerAscii ty) (realPipeline cfg (lowerAscii ty) tok))
@@ -39,7 +40,7 @@ theorem stropTrace_ok {cfg : Cfg} {tok ty r : Str} {g : Bool}
       recheck (isReserved cfg s2) cfg.stropHandler .illegalToken s2 f2 = .ok (s3, f3) ∧
       recheck (encodeDry cfg tyAll s3 || encodeDry cfg (lowerAscii ty) s3)
         cfg.encHandler .unstableEncoding s3 f3 = .ok (r, g) := by
-  unfold stropTrace at h
+  unfold stropTraceBeforeFix at h
   simp only at h
   split at h
   · cases h
@@ -52,5 +53,634 @@ theorem stropTrace_ok {cfg : Cfg} {tok ty r : Str} {g : Bool}
       · cases h
       · rename_i s3 f3 h3
         exact ⟨s2, f2, s3, f3, h2, h3, h⟩
+
+theorem verify_ok {cfg : Cfg} {ty s r : Str} (h : verify cfg ty s = .ok r) :
+    r = s ∧ isReserved cfg s = false ∧ patDry cfg tyAll s = false ∧ patDry cfg ty s = false ∧
+    encodeDry cfg tyAll s = false ∧ encodeDry cfg ty s = false := by
+  unfold verify at h
+  split at h
+  · cases h
+  · split at h
+    · cases h
+    · split at h
+      · cases h
+      · rename_i h1 h2 h3
+        simp only [Bool.or_eq_true, not_or, Bool.not_eq_true] at h1 h2 h3
+        cases h
+        exact ⟨rfl, h2, h1.1, h1.2, h3.1, h3.2⟩
+
+/-- The repaired `strop` is the old one plus a final verification of handler-supplied tokens. -/
+theorem stropTrace_ok {cfg : Cfg} {tok ty r : Str} {g : Bool}
+    (h : stropTrace cfg tok ty = .ok (r, g)) :
+    stropTraceBeforeFix cfg tok ty = .ok (r, g) ∧
+    (g = true → verify cfg (lowerAscii ty) r = .ok r) := by
+  unfold stropTrace at h
+  split at h
+  · cases h
+  · cases h; rename_i hb; exact ⟨hb, by simp⟩
+  · rename_i r0 hb
+    split at h
+    · rename_i r' hv
+      cases h
+      obtain ⟨e, _⟩ := verify_ok hv
+      subst e
+      exact ⟨hb, fun _ => hv⟩
+    · cases h
+
+def Word (s : Str) : Prop := ∀ c ∈ s, isWordChar c = true
+
+theorem Word.append {a b : Str} (ha : Word a) (hb : Word b) : Word (a ++ b) := by
+  intro c hc; simp only [List.mem_append] at hc; rcases hc with h | h
+  · exact ha c h
+  · exact hb c h
+
+theorem hexDigit_word (d : Nat) (h : d < 16) : isWordChar (hexDigit d) = true := by
+  unfold hexDigit isWordChar
+  split <;> simp <;> omega
+
+theorem hexCore_word (fuel n : Nat) (acc : Str) (h : Word acc) : Word (hexCore fuel n acc) := by
+  induction fuel generalizing n acc with
+  | zero => simpa [hexCore] using h
+  | succ fuel ih =>
+    have hd : Word (hexDigit (n % 16) :: acc) := by
+      intro c hc
+      simp only [List.mem_cons] at hc
+      rcases hc with rfl | hc
+      · exact hexDigit_word _ (Nat.mod_lt _ (by omega))
+      · exact h c hc
+    simp only [hexCore]
+    split
+    · exact hd
+    · exact ih _ _ hd
+
+theorem hexCore_ne_nil (fuel n : Nat) (acc : Str) (h : acc ≠ [] ∨ 0 < fuel) : hexCore fuel n acc ≠ [] := by
+  induction fuel generalizing n acc with
+  | zero => rcases h with h | h; simpa [hexCore] using h; omega
+  | succ fuel ih =>
+    simp only [hexCore]
+    split
+    · simp
+    · exact ih _ _ (Or.inl (by simp))
+
+theorem hex4_word (n : Nat) : Word (hex4 n) := by
+  unfold hex4
+  apply Word.append
+  · intro c hc; simp only [List.mem_replicate] at hc; rw [hc.2]; decide
+  · exact hexCore_word _ _ _ (by intro c hc; cases hc)
+
+theorem hex4_ne_nil (n : Nat) : hex4 n ≠ [] := by
+  unfold hex4
+  simp only [ne_eq, List.append_eq_nil_iff, not_and]
+  intro _
+  exact hexCore_ne_nil _ _ _ (Or.inr (by omega))
+
+/-- prefix, suffix, encoding prefix and whitespace character consist of word characters -/
+structure WordCfg (cfg : Cfg) : Prop where
+  pre : Word cfg.stropPrefix
+  suf : Word cfg.stropSuffix
+  encp : Word cfg.encPrefix
+  ws : ∀ w, cfg.wsChar = some w → Word w ∧ w ≠ []
+
+theorem encChar_word {cfg : Cfg} (hc : WordCfg cfg) (c : Nat) : Word (encChar cfg c) ∧ encChar cfg c ≠ [] := by
+  unfold encChar
+  have hx : Word (cfg.encPrefix ++ hex4 c) ∧ cfg.encPrefix ++ hex4 c ≠ [] :=
+    ⟨hc.encp.append (hex4_word c), by simp [hex4_ne_nil]⟩
+  split
+  · rename_i w hw
+    split
+    · exact hc.ws w hw
+    · exact hx
+  · exact hx
+
+theorem encFilter_word {cfg : Cfg} (hc : WordCfg cfg) (m : Str) : Word (encFilter cfg m) := by
+  unfold encFilter
+  split
+  · split
+    · rename_i w hw; exact (hc.ws w hw).1
+    · exact (encChar_word hc 32).1
+  · intro c hcm
+    simp only [List.mem_flatten, List.mem_map] at hcm
+    obtain ⟨l, ⟨a, _, rfl⟩, hl⟩ := hcm
+    exact (encChar_word hc a).1 c hl
+
+theorem encFilter_ne_nil {cfg : Cfg} (hc : WordCfg cfg) (m : Str) (hm : m ≠ []) : encFilter cfg m ≠ [] := by
+  unfold encFilter
+  split
+  · split
+    · rename_i w hw; exact (hc.ws w hw).2
+    · exact (encChar_word hc 32).2
+  · cases m with
+    | nil => exact absurd rfl hm
+    | cons a t =>
+      simp only [List.map_cons, List.flatten_cons, ne_eq, List.append_eq_nil_iff, not_and]
+      intro h; exact absurd h (encChar_word hc a).2
+
+
+/-! ### encoding -/
+
+theorem foldl_sub_word {cfg : Cfg} (hc : WordCfg cfg) (rs : List Re) (s : Str) (hs : Word s) :
+    Word (rs.foldl (fun acc r => sub r (encFilter cfg) acc) s) := by
+  induction rs generalizing s with
+  | nil => exact hs
+  | cons r rs ih => exact ih _ (sub_all _ r _ (fun m => encFilter_word hc m) s hs)
+
+theorem foldl_sub_ne_nil {cfg : Cfg} (hc : WordCfg cfg) (rs : List Re) (s : Str) (hs : s ≠ []) :
+    rs.foldl (fun acc r => sub r (encFilter cfg) acc) s ≠ [] := by
+  induction rs generalizing s with
+  | nil => exact hs
+  | cons r rs ih => exact ih _ (sub_ne_nil r _ (fun m hm => encFilter_ne_nil hc m hm) s hs)
+
+theorem encodeReal_word {cfg : Cfg} (hc : WordCfg cfg) (ty s : Str) (hs : Word s) : Word (encodeReal cfg ty s) := by
+  unfold encodeReal; split
+  · exact hs
+  · exact foldl_sub_word hc _ s hs
+
+theorem encodeReal_ne_nil {cfg : Cfg} (hc : WordCfg cfg) (ty s : Str) (hs : s ≠ []) : encodeReal cfg ty s ≠ [] := by
+  unfold encodeReal; split
+  · exact hs
+  · exact foldl_sub_ne_nil hc _ s hs
+
+/-- the `all` rules contain a rule `[K]+` where every character outside `K` is a word character -/
+def HasNonWordRule (cfg : Cfg) : Prop :=
+  ∃ pre K post, lookup cfg.rules tyAll = some (pre ++ .rep 1 none (.chr K) :: post) ∧
+    ∀ c, K.mem c = false → isWordChar c = true
+
+theorem encodeReal_all_word {cfg : Cfg} (hc : WordCfg cfg) (hr : HasNonWordRule cfg) (s : Str) :
+    Word (encodeReal cfg tyAll s) := by
+  obtain ⟨pre, K, post, hl, hK⟩ := hr
+  unfold encodeReal
+  rw [hl]
+  simp only [List.foldl_append, List.foldl_cons]
+  apply foldl_sub_word hc
+  exact sub_plusCls_all _ K _ (fun m => encFilter_word hc m) hK _
+
+/-! ### stropping -/
+
+theorem wrap_word {cfg : Cfg} (hc : WordCfg cfg) (s : Str) (hs : Word s) : Word (wrap cfg s) :=
+  (hc.pre.append hs).append hc.suf
+
+theorem wrap_ne_nil (cfg : Cfg) (s : Str) (hs : s ≠ []) : wrap cfg s ≠ [] := by
+  unfold wrap; simp [hs]
+
+theorem realPipeline_word {cfg : Cfg} (hc : WordCfg cfg) (hr : HasNonWordRule cfg) (ty tok : Str) (ht : tok ≠ []) :
+    Word (realPipeline cfg ty tok) ∧ realPipeline cfg ty tok ≠ [] := by
+  have h1 : Word (encodeReal cfg ty (encodeReal cfg tyAll tok)) :=
+    encodeReal_word hc _ _ (encodeReal_all_word hc hr tok)
+  have h2 : encodeReal cfg ty (encodeReal cfg tyAll tok) ≠ [] :=
+    encodeReal_ne_nil hc _ _ (encodeReal_ne_nil hc _ _ ht)
+  have kw : ∀ s, Word s ∧ s ≠ [] → Word (kwStrop cfg s) ∧ kwStrop cfg s ≠ [] := by
+    intro s ⟨a, b⟩; unfold kwStrop; split
+    · exact ⟨wrap_word hc s a, wrap_ne_nil cfg s b⟩
+    · exact ⟨a, b⟩
+  have pt : ∀ ty s, Word s ∧ s ≠ [] → Word (patStrop cfg ty s) ∧ patStrop cfg ty s ≠ [] := by
+    intro ty s ⟨a, b⟩; unfold patStrop; split
+    · exact ⟨wrap_word hc s a, wrap_ne_nil cfg s b⟩
+    · exact ⟨a, b⟩
+  unfold realPipeline
+  exact pt _ _ (pt _ _ (kw _ (kw _ ⟨h1, h2⟩)))
+
+/-! ### the C / C++ failure handler -/
+
+theorem isIdent_word {s : Str} (h : isIdent s = true) : Word s ∧ s ≠ [] := by
+  cases s with
+  | nil => simp [isIdent] at h
+  | cons c t =>
+    simp only [isIdent, Bool.and_eq_true, List.all_eq_true] at h
+    refine ⟨?_, by simp⟩
+    intro x hx
+    simp only [List.mem_cons] at hx
+    rcases hx with rfl | hx
+    · have := h.1; unfold isIdentStart at this; unfold isWordChar; simp_all; omega
+    · exact h.2 x hx
+
+theorem cHandler_ident {s r : Str} (h : cHandler s = some r) (hs : Word s) : isIdent r = true := by
+  unfold cHandler at h
+  split at h
+  · rename_i t
+    have ht : Word t := fun c hc => hs c (List.mem_cons_of_mem _ hc)
+    have hd : Word (t.dropWhile (· == 95)) := fun c hc => ht c ((List.dropWhile_sublist _).subset hc)
+    split at h
+    · cases h; decide
+    · rename_i c r' heq
+      rw [heq] at hd
+      have hc : isWordChar c = true := hd c (by simp)
+      have hr' : ∀ x ∈ r', isWordChar x = true := fun x hx => hd x (List.mem_cons_of_mem _ hx)
+      split at h
+      · cases h
+        rename_i hup
+        simp only [isIdent, Bool.and_eq_true, List.all_eq_true]
+        refine ⟨by decide, ?_⟩
+        intro x hx
+        simp only [List.mem_cons] at hx
+        rcases hx with rfl | hx
+        · unfold isWordChar; simp; omega
+        · exact hr' x hx
+      · cases h
+        simp only [isIdent, Bool.and_eq_true, List.all_eq_true]
+        refine ⟨by decide, ?_⟩
+        intro x hx
+        simp only [List.mem_cons] at hx
+        rcases hx with rfl | hx
+        · exact hc
+        · exact hr' x hx
+  · cases h
+
+
+/-! ### the returned token -/
+
+/-- Every returned token passed (or would pass) the three dry runs. -/
+theorem stropTrace_rechecked {cfg : Cfg} {tok ty r : Str} {g : Bool}
+    (h : stropTrace cfg tok ty = .ok (r, g)) :
+    isReserved cfg r = false ∧
+    patDry cfg tyAll r = false ∧ patDry cfg (lowerAscii ty) r = false ∧
+    encodeDry cfg tyAll r = false ∧ encodeDry cfg (lowerAscii ty) r = false := by
+  obtain ⟨hb, hv⟩ := stropTrace_ok h
+  cases g with
+  | true => exact (verify_ok (hv rfl)).2
+  | false =>
+    obtain ⟨_, s2, f2, s3, f3, h2, h3, h4⟩ := stropTraceBeforeFix_ok hb
+    obtain ⟨e1, e2, e3⟩ := recheck_ok_false h4
+    subst e2 e3
+    obtain ⟨k1, k2, k3⟩ := recheck_ok_false h3
+    subst k2 k3
+    obtain ⟨p1, p2, _⟩ := recheck_ok_false h2
+    subst p2
+    simp only [Bool.or_eq_false_iff] at e1 p1
+    exact ⟨k1, p1.1, p1.2, e1.1, e1.2⟩
+
+/-- a leading ASCII digit is caught by one of the `all` re-verifications -/
+def CatchesLeadingDigit (cfg : Cfg) : Prop :=
+  ∀ c t, 48 ≤ c → c ≤ 57 → patDry cfg tyAll (c :: t) = true ∨ encodeDry cfg tyAll (c :: t) = true
+
+theorem recheck_inv {bad : Bool} {h : Handler} {e : Err} {s r : Str} {f g : Bool}
+    (hg : recheck bad h e s f = .ok (r, g))
+    (hs : Word s ∧ s ≠ [] ∧ (f = true → isIdent s = true)) :
+    Word r ∧ r ≠ [] ∧ (g = true → isIdent r = true) := by
+  rcases recheck_ok hg with ⟨_, rfl, rfl⟩ | ⟨_, _, hh, _⟩
+  · exact hs
+  · have hi := cHandler_ident hh hs.1
+    exact ⟨(isIdent_word hi).1, (isIdent_word hi).2, fun _ => hi⟩
+
+/-- The shape half of T2, for any configuration with the three recognisable ingredients. -/
+theorem stropTrace_ident {cfg : Cfg} (hc : WordCfg cfg) (hr : HasNonWordRule cfg) (hd : CatchesLeadingDigit cfg)
+    {tok ty r : Str} {g : Bool} (ht : tok ≠ []) (h : stropTrace cfg tok ty = .ok (r, g)) :
+    isIdent r = true := by
+  have hre := stropTrace_rechecked h
+  obtain ⟨hb, _⟩ := stropTrace_ok h
+  obtain ⟨_, s2, f2, s3, f3, h2, h3, h4⟩ := stropTraceBeforeFix_ok hb
+  have j1 := realPipeline_word hc hr (lowerAscii ty) tok ht
+  have j2 := recheck_inv h2 ⟨j1.1, j1.2, by simp⟩
+  have j3 := recheck_inv h3 j2
+  have j4 := recheck_inv h4 j3
+  cases g with
+  | true => exact j4.2.2 rfl
+  | false =>
+    cases r with
+    | nil => exact absurd rfl j4.2.1
+    | cons c t =>
+      have hw : isWordChar c = true := j4.1 c (by simp)
+      have hnd : ¬ (48 ≤ c ∧ c ≤ 57) := by
+        intro ⟨a, b⟩
+        rcases hd c t a b with x | x
+        · rw [hre.2.1] at x; cases x
+        · rw [hre.2.2.2.1] at x; cases x
+      simp only [isIdent, Bool.and_eq_true, List.all_eq_true]
+      refine ⟨?_, fun x hx => j4.1 x (List.mem_cons_of_mem _ hx)⟩
+      unfold isWordChar at hw; unfold isIdentStart; simp_all <;> omega
+
+/-! ### fixed point (T3) -/
+
+theorem foldl_sub_id (f : Str → Str) (rs : List Re) (s : Str)
+    (h : ∀ r ∈ rs, matchesNowhere s.length r s = true) :
+    rs.foldl (fun acc r => sub r f acc) s = s := by
+  induction rs with
+  | nil => rfl
+  | cons r rs ih =>
+    simp only [List.foldl_cons]
+    rw [sub_id_of_matchesNowhere r f s (h r (by simp))]
+    exact ih (fun r' hr' => h r' (by simp [hr']))
+
+theorem encodeReal_id {cfg : Cfg} {ty s : Str}
+    (h : ∀ r ∈ (lookup cfg.rules ty).getD [], matchesNowhere s.length r s = true) : encodeReal cfg ty s = s := by
+  unfold encodeReal
+  split
+  · rfl
+  · rename_i rs hl
+    rw [hl] at h
+    exact foldl_sub_id _ rs s h
+
+theorem encodeDry_false {cfg : Cfg} {ty s : Str}
+    (h : ∀ r ∈ (lookup cfg.rules ty).getD [], matchesNowhere s.length r s = true) : encodeDry cfg ty s = false := by
+  unfold encodeDry
+  split
+  · rfl
+  · rename_i rs hl
+    rw [hl] at h
+    simp only [matchesAny, List.any_eq_false, Bool.not_eq_true]
+    intro r hr
+    exact matchesStart_of_matchesNowhere r s (h r hr)
+
+theorem strop_fixed {cfg : Cfg} {tok ty : Str} (hty : lowerAscii ty ≠ tyAll)
+    (hres : isReserved cfg tok = false) (hp1 : patDry cfg tyAll tok = false)
+    (hp2 : patDry cfg (lowerAscii ty) tok = false) (henc : encodingFree cfg (lowerAscii ty) tok = true) :
+    stropTrace cfg tok ty = .ok (tok, false) := by
+  simp only [encodingFree, List.all_eq_true, List.mem_append] at henc
+  have ea : ∀ r ∈ (lookup cfg.rules tyAll).getD [], matchesNowhere tok.length r tok = true :=
+    fun r hr => henc r (Or.inl hr)
+  have et : ∀ r ∈ (lookup cfg.rules (lowerAscii ty)).getD [], matchesNowhere tok.length r tok = true :=
+    fun r hr => henc r (Or.inr hr)
+  have hpipe : realPipeline cfg (lowerAscii ty) tok = tok := by
+    unfold realPipeline
+    simp only [encodeReal_id ea, encodeReal_id et, kwStrop, hres, patStrop, hp1, hp2, Bool.false_eq_true, if_false]
+  have hb : stropTraceBeforeFix cfg tok ty = .ok (tok, false) := by
+    unfold stropTraceBeforeFix
+    simp only [hty, if_false, hpipe, hp1, hp2, Bool.or_false, recheck, hres, encodeDry_false ea, encodeDry_false et,
+      Bool.false_eq_true]
+  unfold stropTrace
+  rw [hb]
+
+/-! ### the shipped configurations (generated): the ingredients of `stropTrace_ident`, recognised by `decide` -/
+section shipped
+open NunavutVerif.Gen.StropCfg
+
+theorem word_of_all {s : Str} (h : s.all isWordChar = true) : Word s := by
+  intro c hc; exact List.all_eq_true.mp h c hc
+
+theorem wordCfg_of (cfg : Cfg)
+    (h : cfg.stropPrefix.all isWordChar && cfg.stropSuffix.all isWordChar && cfg.encPrefix.all isWordChar &&
+      (match cfg.wsChar with | some w => w.all isWordChar && !w.isEmpty | none => true) = true) : WordCfg cfg := by
+  simp only [Bool.and_eq_true] at h
+  refine ⟨word_of_all h.1.1.1, word_of_all h.1.1.2, word_of_all h.1.2, ?_⟩
+  intro w hw
+  rw [hw] at h
+  have h2 := h.2
+  simp only [Bool.and_eq_true, Bool.not_eq_true', List.isEmpty_eq_false_iff, decide_eq_true_eq] at h2
+  exact ⟨word_of_all h2.1, h2.2⟩
+
+theorem wordCfgC : WordCfg cfgC := wordCfg_of _ (by decide)
+theorem wordCfgCpp : WordCfg cfgCpp := wordCfg_of _ (by decide)
+theorem wordCfgPy : WordCfg cfgPy := wordCfg_of _ (by decide)
+
+/-- `[^a-zA-Z0-9_]` as the translator emits it -/
+def clsNonWord : Cls := ⟨true, [(97, 122), (65, 90), (48, 57), (95, 95)]⟩
+
+theorem clsNonWord_compl (c : Nat) (h : clsNonWord.mem c = false) : isWordChar c = true := by
+  simp only [clsNonWord, Cls.mem, inRanges, isWordChar] at *
+  simp_all
+  omega
+
+theorem nonWordRuleC : HasNonWordRule cfgC :=
+  ⟨[c_rules_all_0, c_rules_all_1], clsNonWord, [], by decide, clsNonWord_compl⟩
+theorem nonWordRuleCpp : HasNonWordRule cfgCpp :=
+  ⟨[cpp_rules_all_0], clsNonWord, [cpp_rules_all_2, cpp_rules_all_3], by decide, clsNonWord_compl⟩
+theorem nonWordRulePy : HasNonWordRule cfgPy :=
+  ⟨[py_rules_all_0], clsNonWord, [], by decide, clsNonWord_compl⟩
+
+theorem clsDigit_ascii (c : Nat) (h1 : 48 ≤ c) (h2 : c ≤ 57) : clsDigit.mem c = true := by
+  have h : ∀ k : Fin 10, clsDigit.mem (48 + k.val) = true := by decide
+  have := h ⟨c - 48, by omega⟩
+  simp only at this
+  rwa [show 48 + (c - 48) = c by omega] at this
+
+
+theorem encodeDry_of_mem {cfg : Cfg} {ty s : Str} {rs : List Re} {r : Re}
+    (hl : lookup cfg.rules ty = some rs) (hr : r ∈ rs) (hm : matchesStart r s = true) : encodeDry cfg ty s = true := by
+  unfold encodeDry; rw [hl]; exact List.any_eq_true.mpr ⟨r, hr, hm⟩
+
+theorem patDry_of_mem {cfg : Cfg} {ty s : Str} {rs : List Re} {r : Re}
+    (hl : lookup cfg.patterns ty = some rs) (hr : r ∈ rs) (hm : matchesStart r s = true) : patDry cfg ty s = true := by
+  unfold patDry; rw [hl]; exact List.any_eq_true.mpr ⟨r, hr, hm⟩
+
+/-- `^\d{1}` as the translator emits it -/
+def reLeadingDigit : Re := .seq .bol (.rep 1 (some 0) (.chr clsDigit))
+
+theorem reLeadingDigit_matches (c : Nat) (t : Str) (h1 : 48 ≤ c) (h2 : c ≤ 57) :
+    matchesStart reLeadingDigit (c :: t) = true := by
+  unfold reLeadingDigit; rw [matchesStart_bol_cls1]; exact clsDigit_ascii c h1 h2
+
+theorem catchesDigitC : CatchesLeadingDigit cfgC := fun c t h1 h2 =>
+  Or.inr (encodeDry_of_mem (rs := [c_rules_all_0, c_rules_all_1, c_rules_all_2]) (r := reLeadingDigit)
+    (by decide) (by decide) (reLeadingDigit_matches c t h1 h2))
+
+theorem catchesDigitCpp : CatchesLeadingDigit cfgCpp := fun c t h1 h2 =>
+  Or.inl (patDry_of_mem (rs := [cpp_patterns_all_0, cpp_patterns_all_1]) (r := reLeadingDigit)
+    (by decide) (by decide) (reLeadingDigit_matches c t h1 h2))
+
+theorem catchesDigitPy : CatchesLeadingDigit cfgPy := fun c t h1 h2 =>
+  Or.inr (encodeDry_of_mem (rs := [py_rules_all_0, py_rules_all_1]) (r := reLeadingDigit)
+    (by decide) (by decide) (reLeadingDigit_matches c t h1 h2))
+
+end shipped
+
+theorem strop_ok_iff {cfg : Cfg} {tok ty r : Str} :
+    strop cfg tok ty = .ok r ↔ ∃ g, stropTrace cfg tok ty = .ok (r, g) := by
+  unfold strop
+  cases h : stropTrace cfg tok ty with
+  | error e => simp [Except.map]
+  | ok p => obtain ⟨a, b⟩ := p; simp [Except.map]
+
+/-! ### handler tokens: the fix changes nothing for configurations that pass `handlerSafe` -/
+
+/-- the form of every token the C / C++ failure handler produces: `_`, or `_` followed by a character that
+is neither `_` nor an upper-case ASCII letter -/
+def isHShape : Str → Bool
+  | [95] => true
+  | 95 :: c :: _ => !(c == 95) && !(decide (65 ≤ c) && decide (c ≤ 90))
+  | _ => false
+
+theorem cHandler_hshape {s r : Str} (h : cHandler s = some r) : isHShape r = true := by
+  unfold cHandler at h
+  split at h
+  · rename_i t
+    split at h
+    · cases h; rfl
+    · rename_i c r' heq
+      have hne : ¬ ((c == 95) = true) := by
+        have := List.head_dropWhile_not (· == 95) (l := t) (by rw [heq]; simp)
+        simp only [heq, List.head_cons] at this
+        simp [this]
+      simp only [beq_iff_eq] at hne
+      split at h
+      · cases h; simp [isHShape]; omega
+      · rename_i hup; cases h; simp [isHShape, hne]; omega
+  · cases h
+
+/-- sufficient syntactic condition for: the pattern matches at the start of no handler-shaped token -/
+def chkH : Re → Bool
+  | .alt a b => chkH a && chkH b
+  | .seq .bol (.seq (.chr A) (.chr B)) => rej 95 (.seq .bol (.seq (.chr A) (.chr B))) || clsSubUU B
+  | .seq .bol (.rep 2 mo (.chr A)) => rej 95 (.seq .bol (.rep 2 mo (.chr A))) || clsSubUU A
+  | .seq (.rep 2 mo (.chr A)) .eol => rej 95 (.seq (.rep 2 mo (.chr A)) .eol) || clsSubUU A
+  | p => rej 95 p
+
+theorem matchesStart_of_rej {p : Re} (h : rej 95 p = true) {r : Str} (hr : isHShape r = true) :
+    matchesStart p r = false := by
+  unfold matchesStart
+  cases r with
+  | nil => simp [isHShape] at hr
+  | cons c t =>
+    have hc : c = 95 := by
+      cases t with
+      | nil => unfold isHShape at hr; split at hr <;> simp_all
+      | cons d u => unfold isHShape at hr; split at hr <;> simp_all
+    subst hc
+    rw [rej_sound 95 p h]; rfl
+
+theorem hshape_cases {r : Str} (hr : isHShape r = true) :
+    r = [95] ∨ ∃ c t, r = 95 :: c :: t ∧ c ≠ 95 ∧ ¬ (65 ≤ c ∧ c ≤ 90) := by
+  unfold isHShape at hr
+  split at hr
+  · exact Or.inl rfl
+  · rename_i c t
+    simp only [Bool.and_eq_true, Bool.not_eq_true', beq_eq_false_iff_ne, Bool.and_eq_false_iff, decide_eq_false_iff_not] at hr
+    exact Or.inr ⟨c, t, rfl, hr.1, by omega⟩
+  · cases hr
+
+theorem chkH_sound (p : Re) (h : chkH p = true) {r : Str} (hr : isHShape r = true) :
+    matchesStart p r = false := by
+  fun_induction chkH p with
+  | case1 a b iha ihb =>
+    simp only [Bool.and_eq_true] at h
+    have ha := iha h.1
+    have hb := ihb h.2
+    unfold matchesStart at *
+    simp only [Bool.not_eq_false', List.isEmpty_iff] at ha hb
+    simp [matchR, ha, hb]
+  | case2 A B =>
+    simp only [Bool.or_eq_true] at h
+    rcases h with h | h
+    · exact matchesStart_of_rej h hr
+    · unfold matchesStart
+      rcases hshape_cases hr with rfl | ⟨c, t, rfl, h1, h2⟩
+      · rw [matchR, matchR]; simp [matchR_2cls_short]
+      · have hB : B.mem c = false := by
+          cases hm : B.mem c with
+          | false => rfl
+          | true => rcases clsSubUU_sound B h c hm with x | x <;> omega
+        rw [matchR, matchR]; simp [matchR_2cls_rej _ A B 95 c t hB]
+  | case3 mo A =>
+    simp only [Bool.or_eq_true] at h
+    rcases h with h | h
+    · exact matchesStart_of_rej h hr
+    · unfold matchesStart
+      rcases hshape_cases hr with rfl | ⟨c, t, rfl, h1, h2⟩
+      · rw [matchR, matchR]; simp [matchR_rep2_short]
+      · have hA : A.mem c = false := by
+          cases hm : A.mem c with
+          | false => rfl
+          | true => rcases clsSubUU_sound A h c hm with x | x <;> omega
+        rw [matchR, matchR]; simp [matchR_rep2_rej _ A mo 95 c t hA]
+  | case4 mo A =>
+    simp only [Bool.or_eq_true] at h
+    rcases h with h | h
+    · exact matchesStart_of_rej h hr
+    · unfold matchesStart
+      rcases hshape_cases hr with rfl | ⟨c, t, rfl, h1, h2⟩
+      · rw [matchR]; simp [matchR_rep2_short]
+      · have hA : A.mem c = false := by
+          cases hm : A.mem c with
+          | false => rfl
+          | true => rcases clsSubUU_sound A h c hm with x | x <;> omega
+        rw [matchR]; simp [matchR_rep2_rej _ A mo 95 c t hA]
+  | case5 p _ _ _ _ => exact matchesStart_of_rej h hr
+
+
+theorem lookup_mem {m : List (Str × List Re)} {k : Str} {v : List Re} (h : lookup m k = some v) : (k, v) ∈ m := by
+  induction m with
+  | nil => simp [lookup] at h
+  | cons p rest ih =>
+    obtain ⟨k', v'⟩ := p
+    simp only [lookup] at h
+    split at h
+    · rename_i hk; cases h; subst hk; simp
+    · exact List.mem_cons_of_mem _ (ih h)
+
+/-- decidable check of a configuration: no reserved identifier has the form of a handler token, and no reserved
+pattern or encoding rule can match at the start of one -/
+def handlerSafe (cfg : Cfg) : Bool :=
+  cfg.reserved.all (fun k => !isHShape k) &&
+  cfg.patterns.all (fun p => p.2.all chkH) && cfg.rules.all (fun p => p.2.all chkH)
+
+theorem verify_hshape {cfg : Cfg} (h : handlerSafe cfg = true) (ty : Str) {r : Str} (hr : isHShape r = true) :
+    verify cfg ty r = .ok r := by
+  simp only [handlerSafe, Bool.and_eq_true, List.all_eq_true, Bool.not_eq_true'] at h
+  obtain ⟨⟨h1, h2⟩, h3⟩ := h
+  have hp : ∀ ty, patDry cfg ty r = false := by
+    intro ty
+    unfold patDry
+    split
+    · rfl
+    · rename_i ps hl
+      simp only [matchesAny, List.any_eq_false, Bool.not_eq_true]
+      intro p hpm
+      exact chkH_sound p (h2 _ (lookup_mem hl) p hpm) hr
+  have he : ∀ ty, encodeDry cfg ty r = false := by
+    intro ty
+    unfold encodeDry
+    split
+    · rfl
+    · rename_i ps hl
+      simp only [matchesAny, List.any_eq_false, Bool.not_eq_true]
+      intro p hpm
+      exact chkH_sound p (h3 _ (lookup_mem hl) p hpm) hr
+  have hk : isReserved cfg r = false := by
+    cases hres : isReserved cfg r with
+    | false => rfl
+    | true =>
+      simp only [isReserved, List.contains_iff_mem] at hres
+      have := h1 r hres
+      rw [hr] at this; cases this
+  simp [verify, hp, he, hk]
+
+theorem recheck_hshape {bad : Bool} {h : Handler} {e : Err} {s r : Str} {f g : Bool}
+    (hg : recheck bad h e s f = .ok (r, g)) (hs : f = true → isHShape s = true) :
+    g = true → isHShape r = true := by
+  rcases recheck_ok hg with ⟨_, rfl, rfl⟩ | ⟨_, _, hh, _⟩
+  · exact hs
+  · exact fun _ => cHandler_hshape hh
+
+theorem beforeFix_fired_hshape {cfg : Cfg} {tok ty r : Str}
+    (h : stropTraceBeforeFix cfg tok ty = .ok (r, true)) : isHShape r = true := by
+  obtain ⟨_, s2, f2, s3, f3, h2, h3, h4⟩ := stropTraceBeforeFix_ok h
+  exact recheck_hshape h4 (recheck_hshape h3 (recheck_hshape h2 (by simp))) rfl
+
+/-- For a configuration that passes `handlerSafe` the final verification of the repaired `strop` never fails:
+the fix changes nothing. -/
+theorem stropTrace_eq_beforeFix {cfg : Cfg} (h : handlerSafe cfg = true) (tok ty : Str) :
+    stropTrace cfg tok ty = stropTraceBeforeFix cfg tok ty := by
+  unfold stropTrace
+  split
+  · rename_i e he; rw [he]
+  · rename_i r he; rw [he]
+  · rename_i r he
+    rw [verify_hshape h _ (beforeFix_fired_hshape he), he]
+
+/-- Without handlers nothing can fire. -/
+theorem stropTrace_eq_beforeFix_of_no_handler {cfg : Cfg} (h1 : cfg.stropHandler = .none) (h2 : cfg.encHandler = .none)
+    (tok ty : Str) : stropTrace cfg tok ty = stropTraceBeforeFix cfg tok ty := by
+  unfold stropTrace
+  split
+  · rename_i e he; rw [he]
+  · rename_i r he; rw [he]
+  · rename_i r he
+    exfalso
+    obtain ⟨_, s2, f2, s3, f3, k2, k3, k4⟩ := stropTraceBeforeFix_ok he
+    have a2 : f2 = false := by
+      rcases recheck_ok k2 with ⟨_, _, x⟩ | ⟨_, x, _, _⟩
+      · exact x
+      · rw [h1] at x; cases x
+    have a3 : f3 = false := by
+      rcases recheck_ok k3 with ⟨_, _, x⟩ | ⟨_, x, _, _⟩
+      · rw [x, a2]
+      · rw [h1] at x; cases x
+    rcases recheck_ok k4 with ⟨_, _, x⟩ | ⟨_, x, _, _⟩
+    · rw [a3] at x; cases x
+    · rw [h2] at x; cases x
+
+section shipped
+open NunavutVerif.Gen.StropCfg
+theorem handlerSafeC : handlerSafe cfgC = true := by decide +kernel
+theorem handlerSafeCpp : handlerSafe cfgCpp = true := by decide +kernel
+end shipped
 
 end NunavutVerif.Strop
